@@ -1,8 +1,13 @@
-// C07 — one binary per internal column type (-DC07_CT=LIST ...); optional -DC07_KEY64: 64-bit cell keys, long internal keys.
+// C07 — one binary per internal column type (-DC07_CT=LIST ...); optional -DC07_KEY64: 64-bit cell keys, long internal keys;
+// -DC07_FV=int|float: Filtration_value; -DC07_TAG=_xyz: suffix of the config names; -DC07_TYPES: Dimension = short, Internal_key = long long, Cell_key = std::string.
+#include <string>
 #include "c07_zigzag/c07_exec.h"
 
 #ifndef C07_CT
 #define C07_CT NAIVE_VECTOR
+#endif
+#ifndef C07_TAG
+#define C07_TAG
 #endif
 #define C07_STR2(x) #x
 #define C07_STR(x) C07_STR2(x)
@@ -13,6 +18,14 @@ struct Opt : Gudhi::zigzag_persistence::Default_filtered_zigzag_options {
 #ifdef C07_KEY64
   using Cell_key = long long;
   using Internal_key = long;
+#endif
+#ifdef C07_FV
+  using Filtration_value = C07_FV;
+#endif
+#ifdef C07_TYPES
+  using Dimension = short;
+  using Internal_key = long long;
+  using Cell_key = std::string;
 #endif
 };
 #ifdef C07_KEY64
@@ -26,6 +39,12 @@ void mix(vh::Case& c) { c07::GenParams gp; gp.nmin = 5; gp.nmax = 28; E::random_
 void longer(vh::Case& c) { c07::GenParams gp; gp.nmin = 29; gp.nmax = 60; E::random_case(c, gp, kKey64); }
 void insonly(vh::Case& c) { c07::GenParams gp; gp.nmin = 4; gp.nmax = 34; gp.insertion_only = true; E::random_case(c, gp, kKey64); }
 void churn(vh::Case& c) { c07::GenParams gp; gp.nmin = 20; gp.nmax = 48; gp.churn = true; E::random_case(c, gp, kKey64); }
+// value sequences with +-infinity (integral Filtration_value: 0) at the start, throughout, or at the end
+void edgeval(vh::Case& c) { c07::GenParams gp; gp.nmin = 5; gp.nmax = 28; gp.edge_values = true; E::random_case(c, gp, kKey64); }
+// up to 31 one-dimensional classes alive at once (10 vertices, 40 edges, 9 triangles)
+void wide(vh::Case& c) { c07::GenParams gp; gp.nmin = 70; gp.nmax = 130; gp.churn = true; gp.wide = true; E::random_case(c, gp, kKey64); }
+// 300-1000 operations in growth / shrinking periods
+void vlong(vh::Case& c) { c07::GenParams gp; gp.nmin = 300; gp.nmax = 1000; gp.periodic = true; E::random_case(c, gp, kKey64); }
 void exh(vh::Case& c) { E::exhaustive_case(c); }
 }  // namespace
 
@@ -33,9 +52,12 @@ void exh(vh::Case& c) { E::exhaustive_case(c); }
 // instead of exhausting the machine
 extern "C" const char* __asan_default_options() { return "hard_rss_limit_mb=3072"; }
 
-VH_CONFIG("mix_" C07_STR(C07_CT), mix);
-VH_CONFIG("long_" C07_STR(C07_CT), longer);
-VH_CONFIG("insonly_" C07_STR(C07_CT), insonly);
-VH_CONFIG("churn_" C07_STR(C07_CT), churn);
-VH_CONFIG("exh3_" C07_STR(C07_CT), exh);
+VH_CONFIG("mix_" C07_STR(C07_CT) C07_STR(C07_TAG), mix);
+VH_CONFIG("long_" C07_STR(C07_CT) C07_STR(C07_TAG), longer);
+VH_CONFIG("insonly_" C07_STR(C07_CT) C07_STR(C07_TAG), insonly);
+VH_CONFIG("churn_" C07_STR(C07_CT) C07_STR(C07_TAG), churn);
+VH_CONFIG("edgeval_" C07_STR(C07_CT) C07_STR(C07_TAG), edgeval);
+VH_CONFIG("wide_" C07_STR(C07_CT) C07_STR(C07_TAG), wide);
+VH_CONFIG("vlong_" C07_STR(C07_CT) C07_STR(C07_TAG), vlong);
+VH_CONFIG("exh3_" C07_STR(C07_CT) C07_STR(C07_TAG), exh);
 VH_MAIN()
